@@ -9,6 +9,7 @@ arbitrary field and module applies to exactly the functions the driver runs.
 Also: the line protocol of the C09 driver.
 -/
 import DosModel.Model.Share
+import DosModel.Gen.TblsFacts
 
 namespace Dos
 
@@ -55,10 +56,11 @@ end Zq
 
 namespace Share
 
-/-- order of bn256 G1/G2/GT (`group/bn256/constants.go` `Order`) -/
-def bn256Order : Nat := 21888242871839275222246405745257275088548364400416034343698204186575808495617
-/-- order of the ed25519 base point (`group/edwards25519/const.go` `primeOrder`) -/
-def ed25519Order : Nat := 7237005577332262213973186563042994240857116359379907606001950938285454250989
+/-- order of bn256 G1/G2/GT: `group/bn256/constants.go` `Order`, regenerated from /repo on every
+check run (`Gen/TblsFacts.lean`) and pinned to the alt_bn128 value by `Props/C09.lean` -/
+def bn256Order : Nat := Gen.bn256Order
+/-- order of the ed25519 base point (`group/edwards25519/const.go` `primeOrder`), regenerated -/
+def ed25519Order : Nat := Gen.ed25519Order
 
 instance : NeZero bn256Order := ⟨by decide⟩
 instance : NeZero ed25519Order := ⟨by decide⟩
